@@ -118,6 +118,47 @@ func minimise(e *evaluator, plan *core.Plan, class string, budget time.Duration)
 				break
 			}
 		}
+		// 1b. shrink explicit input bytes (C04): delete spans, then simplify bytes
+		for size := len(cur.Input) / 2; size >= 1; size /= 2 {
+			for {
+				var cands []*core.Plan
+				for i := 0; i+size <= len(cur.Input); i += size {
+					c := clonePlan(cur)
+					c.Input = append(append([]byte{}, cur.Input[:i]...), cur.Input[i+size:]...)
+					cands = append(cands, c)
+				}
+				if len(cands) == 0 {
+					break
+				}
+				if w := try(cands); w != nil {
+					cur = w
+					progress = true
+					if size > len(cur.Input) {
+						break
+					}
+					continue
+				}
+				break
+			}
+		}
+		if len(cur.Input) > 0 && len(cur.Input) <= 64 {
+			var cands []*core.Plan
+			for i, v := range cur.Input {
+				for _, r := range []byte{'0', 'a', ' '} {
+					if v == r || v == '0' {
+						continue
+					}
+					c := clonePlan(cur)
+					c.Input[i] = r
+					cands = append(cands, c)
+					break
+				}
+			}
+			if w := try(cands); w != nil {
+				cur = w
+				progress = true
+			}
+		}
 		// 2. delete spans of the tape
 		for size := len(cur.Tape) / 2; size >= 1; size /= 2 {
 			for {
@@ -190,6 +231,9 @@ func clonePlan(p *core.Plan) *core.Plan {
 	c := *p
 	c.Tape = append([]uint32(nil), p.Tape...)
 	c.Schedule = append([][2]int64(nil), p.Schedule...)
+	if p.Input != nil {
+		c.Input = append([]byte{}, p.Input...)
+	}
 	c.Expect = nil
 	c.Rendered = nil
 	return &c
